@@ -584,6 +584,60 @@ Proof.
   - apply Permutation_sym, Permutation_nil in P. discriminate.
 Qed.
 
+(* Resolve, OCI branch: locked to a best match over the tags of ALL pages; when no tag is in
+   range the code does not report the dependency as missing but locks the range text *)
+Lemma resolve_oci_thm :
+  forall sort : list sversion -> list sversion,
+    (forall l, Permutation l (sort l)) ->
+    (forall l, StronglySorted (fun a b => sless a b = false) (sort l)) ->
+    forall pages ver,
+      match new_constraint ver with
+      | None => resolve_oci cvalid sat sort pages ver = DFail
+      | Some cs =>
+          if is_valid_version ver then resolve_oci cvalid sat sort pages ver = DLocked ver
+          else
+            (exists t, resolve_oci cvalid sat sort pages ver = DLocked t /\
+                       best_tag (constraints_check cs) (all_tags pages) t) \/
+            (resolve_oci cvalid sat sort pages ver = DLocked ver /\
+             none_tag (constraints_check cs) (all_tags pages))
+      end.
+Proof.
+  intros sort Hp Hs pages ver. unfold resolve_oci, resolve_oci_tags.
+  destruct (new_constraint ver) as [cs|] eqn:E.
+  - assert (Hc : cvalid ver = true) by (unfold cvalid; now rewrite E). rewrite Hc. simpl negb. cbv iota.
+    destruct (is_valid_version ver) eqn:V.
+    + simpl find. destruct (tag_sat sat ver ver); reflexivity.
+    + pose proof (first_tag_best sat ver (client_tags sort pages) (client_tags_sorted sort Hp Hs pages)) as H.
+      pose proof (client_tags_perm sort Hp pages) as P.
+      destruct (find (tag_sat sat ver) (client_tags sort pages)) as [t|].
+      * left. exists t. split; auto.
+        eapply best_tag_perm; [exact P|]. eapply best_tag_ext; [|exact H]. apply sat_parsed; auto.
+      * right. split; auto.
+        eapply none_tag_perm; [exact P|]. eapply none_tag_ext; [|exact H]. apply sat_parsed; auto.
+  - assert (Hc : cvalid ver = false) by (unfold cvalid; now rewrite E). now rewrite Hc.
+Qed.
+
+(* K-C18-1: "a lock is produced only when every dependency has a version in range" fails in the
+   OCI branch: no tag of the listing is in range, and the dependency is locked all the same *)
+Lemma resolve_oci_missing_refuted :
+  exists pages ver cs,
+    new_constraint ver = Some cs /\ is_valid_version ver = false /\
+    none_tag (constraints_check cs) (all_tags pages) /\
+    resolve_oci cvalid sat sisort pages ver = DLocked ver.
+Proof.
+  exists [["0.9.0"; "1.0.0"]; ["2.1.0"; "latest"]], ">=3.0.0".
+  destruct (new_constraint ">=3.0.0") as [cs|] eqn:E; [|vm_compute in E; discriminate].
+  exists cs. split; auto. split; [reflexivity|].
+  pose proof (resolve_oci_thm sisort sisort_perm sisort_sorted [["0.9.0"; "1.0.0"]; ["2.1.0"; "latest"]] ">=3.0.0") as H.
+  rewrite E in H. change (is_valid_version ">=3.0.0") with false in H. cbv iota in H.
+  assert (R : resolve_oci cvalid sat sisort [["0.9.0"; "1.0.0"]; ["2.1.0"; "latest"]] ">=3.0.0" = DLocked ">=3.0.0")
+    by (vm_compute; reflexivity).
+  split; auto.
+  destruct H as [(t & Ht & B)|(_ & N)]; auto.
+  exfalso. rewrite R in Ht. injection Ht as <-.
+  destruct B as (_ & (v & Pv & _) & _). vm_compute in Pv. discriminate.
+Qed.
+
 (* ---------- independence of the paging ---------- *)
 
 Lemma all_tags_perm pages pages' :
@@ -659,7 +713,12 @@ Lemma example_oci :
   validate_reference cvalid sat sisort ex_pages ">=1.2.1-0 <1.3.0-0" = VRErrNotFound /\
   validate_reference cvalid sat sisort ex_pages ">=3" = VRErrNotFound /\
   validate_reference cvalid sat sisort ex_pages "7.7.7" = VROk "7.7.7" /\
-  validate_reference cvalid sat sisort [["latest"]; []] "" = VRErrNoTags.
+  validate_reference cvalid sat sisort [["latest"]; []] "" = VRErrNoTags /\
+  resolve_oci cvalid sat sisort ex_pages "^1.0.0" = DLocked "1.10.0" /\
+  resolve_oci cvalid sat sisort ex_pages "2.x" = DLocked "2.1.0+b1" /\
+  resolve_oci cvalid sat sisort ex_pages "1.2.3" = DLocked "1.2.3" /\
+  resolve_oci cvalid sat sisort ex_pages ">=3" = DLocked ">=3" /\
+  resolve_oci cvalid sat sisort ex_pages "latest" = DFail.
 Proof. vm_compute. repeat split; reflexivity. Qed.
 
 (* ---------- the literal comparePrerelease loop is the key order ---------- *)
